@@ -282,6 +282,40 @@ func StructBuilder(env *Zlisp, name string,
 
 	structName := symN.name
 
+	// a declaration that fails leaves the name as it was: put back what the
+	// recursion stub below replaces, in the scope and in the type registry.
+	declared := false
+	scope := env.linearstack.GetTop().(*Scope)
+	prevBound, wasBound := scope.Map[symN.number]
+	prevReg, wasReg := GoStructRegistry.Registry[structName]
+	prevUser, wasUser := GoStructRegistry.Userdef[structName]
+	defer func() {
+		if declared {
+			return
+		}
+		if wasBound {
+			scope.Map[symN.number] = prevBound
+		} else {
+			delete(scope.Map, symN.number)
+		}
+		if wasReg {
+			GoStructRegistry.Registry[structName] = prevReg
+		} else {
+			delete(GoStructRegistry.Registry, structName)
+			for i := len(ListRegisteredTypes) - 1; i >= 0; i-- {
+				if ListRegisteredTypes[i] == structName {
+					ListRegisteredTypes = append(ListRegisteredTypes[:i], ListRegisteredTypes[i+1:]...)
+					break
+				}
+			}
+		}
+		if wasUser {
+			GoStructRegistry.Userdef[structName] = prevUser
+		} else {
+			delete(GoStructRegistry.Userdef, structName)
+		}
+	}()
+
 	{
 		// begin enable recursion -- add ourselves to the env early, then
 		// update later, so that structs can refer to themselves.
@@ -386,6 +420,7 @@ func StructBuilder(env *Zlisp, name string,
 			structName, err)
 	}
 	//Q("good: bound symbol '%s' to RegisteredType '%s'", symN.SexpString(nil), rt.SexpString(nil))
+	declared = true
 	return rt, nil
 }
 
